@@ -215,7 +215,7 @@ var attrDict = func() []string {
 var tagDictAll = append(append([]string{}, tagDict...), attrDict...)
 
 // exprDict is the expression token dictionary for parse.Expr.
-var exprDict = []string{"if", "default", "print", "call", "log", "sp", "nil", "let", "foreach", "for", "case", "css", "literal", "msg", "switch", "param", "template", "namespace", "alias", "ifempty", "else", "elseif", "in", "plural", "debugger", "lb", "/if", "'\\uD83D\\uDE00'", "'\\uD83D\\uDE'", "'\\uD83D\\u'", "'\\uD83D\\'", "'\\uDE00\\uD83D'", "'\\u12'", "'\\u'", "'\\uZZZZ'", "'\\uD83Dx'", "'a\\", "'\\n\\t\\r\\b\\f\\\\\\'\\\"'", "1", "-1", "0x1F", "1.5", "2e3", "1e", "'s'", "'\\u00e9'", "'\\x'", "'", "\"", "null", "true", "$x", "$x.y", "$x?.y", "$x[0]", "$x?[", "$ij.a", "$", "a.b", "f(", "f(1)", ")", "(", "[", "]", "[:]", ":", ",", "?", "?:", "+", "-", "*", "/", "%", "<", "<=", "==", "!=", "!", "=", "and", "or", "not", "|", "}", "{", " ", "\n", "é", "\x00", "\xff", ".", ".5", "1.", "1 2 3", "@", "@param", "//", "/*", "٣", "-٣", "３", ".٣", "é", "$é", "Ⅷ", "²", "\u00a0", "\u2003", "-", "- ", "--"}
+var exprDict = []string{"-٣", "-１", "-१२", "٣", "１", "-²", "-½", "-Ⅷ", "1٣", "$x.٣", "-\u0660.5", "0x１", "1e٣", "if", "default", "print", "call", "log", "sp", "nil", "let", "foreach", "for", "case", "css", "literal", "msg", "switch", "param", "template", "namespace", "alias", "ifempty", "else", "elseif", "in", "plural", "debugger", "lb", "/if", "'\\uD83D\\uDE00'", "'\\uD83D\\uDE'", "'\\uD83D\\u'", "'\\uD83D\\'", "'\\uDE00\\uD83D'", "'\\u12'", "'\\u'", "'\\uZZZZ'", "'\\uD83Dx'", "'a\\", "'\\n\\t\\r\\b\\f\\\\\\'\\\"'", "1", "-1", "0x1F", "1.5", "2e3", "1e", "'s'", "'\\u00e9'", "'\\x'", "'", "\"", "null", "true", "$x", "$x.y", "$x?.y", "$x[0]", "$x?[", "$ij.a", "$", "a.b", "f(", "f(1)", ")", "(", "[", "]", "[:]", ":", ",", "?", "?:", "+", "-", "*", "/", "%", "<", "<=", "==", "!=", "!", "=", "and", "or", "not", "|", "}", "{", " ", "\n", "é", "\x00", "\xff", ".", ".5", "1.", "1 2 3", "@", "@param", "//", "/*", "٣", "-٣", "３", ".٣", "é", "$é", "Ⅷ", "²", "\u00a0", "\u2003", "-", "- ", "--"}
 
 var (
 	corpusOnce []string
@@ -346,6 +346,19 @@ func genC05(t *rapid.T) C05Case {
 		}
 		return mkC05("expr", "expr-dictionary", b.String())
 	}
+	if rapid.Bool().Draw(t, "manyNames") {
+		// a file whose identifiers no earlier input of this process had: whatever the parser keeps between
+		// parses (tables of names seen so far) grows with every such file
+		base := rapid.IntRange(0, 999999999).Draw(t, "base")
+		n := rapid.IntRange(50, 400).Draw(t, "names")
+		var b strings.Builder
+		fmt.Fprintf(&b, "{namespace ns%d.sub%d}\n{alias other%d.lib%d}\n", base, base, base, base)
+		for j := 0; j < n; j++ {
+			fmt.Fprintf(&b, "/** @param p%d_%d */\n{template .t%d_%d}{let $v%d_%d: $p%d_%d + G%d_%d /}{$v%d_%d}{call .t%d_%d /}{call lib%d.u%d_%d}{param q%d_%d: f%d_%d(1) /}{/call}{css c%d_%d}{/template}\n",
+				base, j, base, j, base, j, base, j, base, j, base, j, base, j+1, base, base, j, base, j, base, j, base, j)
+		}
+		return mkC05("file", "many-new-names", b.String())
+	}
 	return mkC05("expr", "random-bytes", string(rapid.SliceOfN(rapid.Byte(), 0, 60).Draw(t, "bytes")))
 }
 
@@ -386,6 +399,9 @@ const (
 )
 
 func checkC05(c C05Case) Verdict {
+	if c.Stretch != nil && c.Kind == "deep" {
+		return checkDeep(c)
+	}
 	if c.Stretch != nil {
 		return checkStretch(c)
 	}
@@ -545,7 +561,76 @@ func TestC05(t *testing.T) {
 		rec.add("stretch_families", len(c05Stretches))
 		rec.flush()
 	}
+	if thorough() && (shard() == "2" || os.Getenv("VERIF_NSHARDS") == "1") && os.Getenv("VERIF_REPLAY") == "" && os.Getenv("VERIF_CORPUS_ONLY") == "" {
+		// the deep tier: every nesting construct some millions of levels deep (inputs of 5-20 MB). The
+		// parse has to come back with a tree or an error; a recursion that outgrows the stack kills the
+		// process, which the driver sees (the case is written out before it is run).
+		rec := newRecorder("C05d")
+		for i := range c05Deep {
+			st := c05Deep[i]
+			st.K = 5000000
+			if len(st.Unit) > 2 {
+				st.K = 1500000
+			}
+			c := C05Case{Kind: "deep", From: "deep", Show: st.Name, Stretch: &st}
+			writeCurrent("C05", c)
+			histLog(c)
+			v := checkC05(c)
+			rec.record(c, v)
+			if v.Err != nil {
+				writeFail("C05", c, v.Err)
+				rec.flush()
+				t.Fatalf("deep tier: %v", v.Err)
+			}
+		}
+		rec.add("deep_families", len(c05Deep))
+		rec.flush()
+	}
 	runPropCrashy(t, "C05", genC05, checkC05)
+}
+
+// c05Deep: the constructs that nest (Level -2: a standalone expression; 1: inside a template).
+var c05Deep = []C05Stretch{
+	{Name: "deep: parentheses", Unit: "(", Mid: "1", Close: ")", Level: -2},
+	{Name: "deep: parentheses left open", Unit: "(", Mid: "1", Level: -2},
+	{Name: "deep: list literals", Unit: "[", Mid: "1", Close: "]", Level: -2},
+	{Name: "deep: map literals", Unit: "['k':", Mid: "1", Close: "]", Level: -2},
+	{Name: "deep: unary minus", Unit: "- ", Mid: "1", Level: -2},
+	{Name: "deep: not", Unit: "not ", Mid: "true", Level: -2},
+	{Name: "deep: conditional chain", Unit: "1?1:", Mid: "1", Level: -2},
+	{Name: "deep: elvis chain", Unit: "1?:", Mid: "1", Level: -2},
+	{Name: "deep: function calls", Unit: "f(", Mid: "1", Close: ")", Level: -2},
+	{Name: "deep: bracket accesses", Unit: "$a[", Mid: "1", Close: "]", Level: -2},
+	{Name: "deep: print of parentheses in a file", Pre: "{", Unit: "(", Mid: "1", Close: ")", Post: "}", Level: 1},
+	{Name: "deep: if blocks", Unit: "{if $x}", Mid: "y", Close: "{/if}", Level: 1},
+	{Name: "deep: if blocks left open", Unit: "{if $x}", Mid: "y", Level: 1},
+	{Name: "deep: let blocks", Unit: "{let $v}", Mid: "y", Close: "{/let}", Level: 1},
+	{Name: "deep: loops", Unit: "{foreach $i in $x}", Mid: "y", Close: "{/foreach}", Level: 1},
+	{Name: "deep: param blocks", Unit: "{call .t}{param p}", Mid: "y", Close: "{/param}{/call}", Level: 1},
+}
+
+// checkDeep parses one deeply nested input: it must come back.
+func checkDeep(c C05Case) Verdict {
+	s := c.Stretch
+	kind := "file"
+	if s.Level == -2 {
+		kind = "expr"
+		s2 := *s
+		s2.Level = -1
+		s = &s2
+	}
+	in := s.input(s.K)
+	var o parseOutcome
+	if !finishes(12*watchdogLimit(), func() { o = doParse(C05Case{Kind: kind, Input: []byte(in)}) }) {
+		hangExit("C05", c, fmt.Sprintf("the parse of %q (%d levels, %d bytes)", s.Name, s.K, len(in)))
+	}
+	if o.panicked != nil {
+		return bad(true, "the parse of %q (%d levels, %d bytes) panicked: %v", s.Name, s.K, len(in), trunc(fmt.Sprint(o.panicked), 300))
+	}
+	if (o.err == nil) == o.treeNil {
+		return bad(true, "the parse of %q (%d levels) returned tree=nil:%v with error %v", s.Name, s.K, o.treeNil, o.err)
+	}
+	return ok(true, "family:deep")
 }
 
 // stretchK sizes a stretch so that the smaller input has about 24 kB (nested forms: at most 1500 levels).
